@@ -48,12 +48,15 @@ def _ttv_strategy(kind):
         h = draw(cm.holder(tier, kind))
         shape = h["shape"]
         des = draw(cm.designation(len(shape)))
-        vk = h["vkind"]
-        vecs = []
+        vk = cm.other_vkind(draw, h["vkind"])
+        vecs, vdt = [], []
         for m in des["sel"]:
             pat = draw(st.sampled_from(VEC_PATTERNS))
-            vecs.append(gen._pattern_values(draw, shape[m], pat, vk))
-        return dict(X=h, des=des, vecs=vecs, junk=draw(st.sampled_from(["empty", "wrong", "right"])))
+            v, dt = cm.operand_values(draw, shape[m], pat, vk, cm.has_small_dtype(h))
+            vecs.append(v)
+            vdt.append(dt)
+        return dict(X=h, des=des, vecs=vecs, vdtypes=vdt, vvkind=vk,
+                    junk=draw(st.sampled_from(["empty", "wrong", "right"])))
 
     return s
 
@@ -66,13 +69,18 @@ def ttv_body(ctx, case):
     X = cm.build(h)
     A, Aabs = cm.den_case(h), cm.den_case(h, absolute=True)
     vecs = {m: np.array(v, dtype=float) for m, v in zip(des["sel"], case["vecs"])}
-    arg, kw = cm.call_args(des, N, vecs, _junk(case.get("junk", "empty"), shape))
+    vdt = case.get("vdtypes") or [None] * len(des["sel"])
+    passed = {m: cm.cast(vecs[m], dt) for m, dt in zip(des["sel"], vdt)}
+    arg, kw = cm.call_args(des, N, passed, _junk(case.get("junk", "empty"), shape))
     expect = cm.ref_ttv(A, vecs)
     bound = cm.ref_ttv(Aabs, {m: np.abs(v) for m, v in vecs.items()})
     nonconst = any(len(set(v.tolist())) > 1 for v in vecs.values())
     ctx.nt = cm.designation_nontrivial(des, shape) and nonconst and bool(np.any(expect != 0))
     ctx.label(*cm.holder_labels(h), *cm.designation_labels(des, N), cm.fill_label(expect),
-              "sel-has-singleton" if any(shape[m] == 1 for m in des["sel"]) else "sel-no-singleton")
+              "sel-has-singleton" if any(shape[m] == 1 for m in des["sel"]) else "sel-no-singleton",
+              *cm.object_labels(X), *sorted({"vector-dtype-" + (d or "float64") for d in vdt}),
+              "vector-zero" if any(not np.any(v) for v in vecs.values()) else "vector-nonzero",
+              "values-mixed-kinds" if case.get("vvkind", h["vkind"]) != h["vkind"] else "values-same-kind")
     with ctx.sut(f"{kind}.ttv"):
         R = X.ttv(arg, **kw)
     ctx.label(cm.result_kind(R))
@@ -81,7 +89,7 @@ def ttv_body(ctx, case):
         ctx.check(isinstance(R, cm.SCALAR_TYPES), "ttv-all-modes-gives-scalar", type(R).__name__)
     else:
         ctx.check(not isinstance(R, cm.SCALAR_TYPES), "ttv-partial-gives-tensor", type(R).__name__)
-    exact = cm.intvalued(h)
+    exact = cm.intvalued(h) and case.get("vvkind", "int") == "int"
     nterms = cm.terms(h) * ref.prod(shape[m] for m in des["sel"]) * (len(des["sel"]) + 1)
     cm.compare(ctx, got, expect, bound, nterms, exact, "ttv-value", f"des={des}")
 
@@ -106,10 +114,12 @@ def _enum_ttv(tier):
     for sh in _enum_shapes(tier):
         N = len(sh)
         for hk in ENUM_HOLDERS:
-            h = cm.fixed_holder(hk, sh, salt=len(sh))
+            h0 = cm.fixed_holder(hk, sh, salt=len(sh))
             for i, des in enumerate(cm.all_designations(N)):
                 vecs = [cm.fixed_vector(sh[m], m + 1) for m in des["sel"]]
-                yield dict(X=h, des=des, vecs=vecs, junk=("empty", "wrong", "right")[i % 3])
+                # the holder cycles through the derived states / integer dtypes, the vectors through dtypes
+                yield dict(X=cm.fixed_state(h0, i), des=des, vecs=vecs, junk=("empty", "wrong", "right")[i % 3],
+                           vdtypes=[(None, "int64", None, "int32")[(i + j) % 4] for j in range(len(vecs))])
 
 
 @cell("C02/ttv/enumerated", enum=_enum_ttv, shards=(8, 16))
@@ -132,13 +142,17 @@ def _ttm_strategy(kind):
         h = draw(cm.holder(tier, kind))
         shape = h["shape"]
         des = draw(cm.designation(len(shape)))
-        vk = h["vkind"]
+        vk = cm.other_vkind(draw, h["vkind"])
         transpose = draw(st.booleans())
-        mats = []
+        mats, mdt = [], []
         for m in des["sel"]:
             J = draw(st.integers(1, 3))
             pat = draw(st.sampled_from(VEC_PATTERNS))
-            flat = gen._pattern_values(draw, J * shape[m], pat, vk)
+            flat, dt = cm.operand_values(draw, J * shape[m], pat, vk, cm.has_small_dtype(h))
+            if J >= 2 and draw(st.integers(0, 5)) == 0:
+                r0 = draw(st.integers(0, J - 1))  # a zero row of the (J, I_m) matrix: a zero slice of the product
+                flat[r0 * shape[m]:(r0 + 1) * shape[m]] = [0.0] * shape[m]
+            mdt.append(dt)
             # stored as the (J, I_m) matrix of the definition, row-major nested list
             mats.append([flat[r * shape[m]:(r + 1) * shape[m]] for r in range(J)])
         # scipy sparse matrices are accepted by the dense and sparse kernels; for a sparse tensor they are the
@@ -147,7 +161,7 @@ def _ttm_strategy(kind):
         if kind in ("tensor", "sptensor"):
             mkind = draw(st.sampled_from(["ndarray", "ndarray", "coo", "csr"] if kind == "sptensor" else
                                          ["ndarray", "ndarray", "ndarray", "coo"]))
-        return dict(X=h, des=des, mats=mats, transpose=transpose, mkind=mkind,
+        return dict(X=h, des=des, mats=mats, transpose=transpose, mkind=mkind, mdtypes=mdt, mvkind=vk,
                     junk=draw(st.sampled_from(["empty", "wrong", "right"])))
 
     return s
@@ -163,7 +177,8 @@ def ttm_body(ctx, case):
     A, Aabs = cm.den_case(h), cm.den_case(h, absolute=True)
     mats = {m: np.array(M, dtype=float).reshape(len(M), shape[m]) for m, M in zip(des["sel"], case["mats"])}
     # what is handed to pyttb: the matrix itself, or its transpose together with transpose=True
-    passed = {m: (np.ascontiguousarray(M.T) if transpose else M) for m, M in mats.items()}
+    mdt = dict(zip(des["sel"], case.get("mdtypes") or [None] * len(des["sel"])))
+    passed = {m: cm.cast(np.ascontiguousarray(M.T) if transpose else M, mdt[m]) for m, M in mats.items()}
     mkind = case.get("mkind", "ndarray")
     if mkind == "coo":
         passed = {m: sparse.coo_matrix(M) for m, M in passed.items()}
@@ -177,12 +192,15 @@ def ttm_body(ctx, case):
     nonsquare = any(M.shape[0] != M.shape[1] for M in mats.values())
     ctx.nt = cm.designation_nontrivial(des, shape) and nonconst and nonsquare and bool(np.any(expect != 0))
     ctx.label(*cm.holder_labels(h), *cm.designation_labels(des, N), cm.fill_label(expect),
-              "transpose" if transpose else "plain", "nonsquare" if nonsquare else "square", "matrix-" + mkind)
+              "transpose" if transpose else "plain", "nonsquare" if nonsquare else "square", "matrix-" + mkind,
+              *cm.object_labels(X), *sorted({"matrix-dtype-" + (d or "float64") for d in mdt.values()}),
+              "matrix-has-zero-row" if any((~M.any(axis=1)).any() for M in mats.values()) else "matrix-no-zero-row",
+              "values-mixed-kinds" if case.get("mvkind", h["vkind"]) != h["vkind"] else "values-same-kind")
     with ctx.sut(f"{kind}.ttm"):
         R = X.ttm(arg, transpose=transpose, **kw)
     ctx.label(cm.result_kind(R))
     got = cm.result_array(ctx, R, "ttm-result", allow=TTM_ALLOWED[kind])
-    exact = cm.intvalued(h)
+    exact = cm.intvalued(h) and case.get("mvkind", "int") == "int"
     nterms = cm.terms(h) * ref.prod(shape[m] for m in des["sel"]) * (len(des["sel"]) + 1)
     cm.compare(ctx, got, expect, bound, nterms, exact, "ttm-value", f"des={des} transpose={transpose}")
 
@@ -196,12 +214,14 @@ def _enum_ttm(tier):
         N = len(sh)
         for hk in ("tensor", "sptensor", "sptensor-thin", "sptensor-one", "sptensor-empty", "ttensor-dense",
                    "ttensor-sparse"):
-            h = cm.fixed_holder(hk, sh, salt=len(sh) + 1)
+            h0 = cm.fixed_holder(hk, sh, salt=len(sh) + 1)
             for i, des in enumerate(cm.all_designations(N)):
                 for transpose in (False, True):
                     mats = [cm.fixed_matrix(1 + (m + i) % 3, sh[m], m + 2) for m in des["sel"]]
-                    yield dict(X=h, des=des, mats=mats, transpose=transpose, junk=("empty", "wrong", "right")[i % 3],
-                               mkind="coo" if hk.startswith("sptensor") and i % 2 else "ndarray")
+                    yield dict(X=cm.fixed_state(h0, i + transpose), des=des, mats=mats, transpose=transpose,
+                               junk=("empty", "wrong", "right")[i % 3],
+                               mkind="coo" if hk.startswith("sptensor") and i % 2 else "ndarray",
+                               mdtypes=[(None, "int64", None, "int32")[(i + j) % 4] for j in range(len(mats))])
 
 
 @cell("C02/ttm/enumerated", enum=_enum_ttm, shards=(8, 16))
